@@ -2,6 +2,7 @@
 from __future__ import annotations
 
 import collections
+import decimal
 import typing as t
 
 from vlib.fixtures import models as M
@@ -41,6 +42,20 @@ def SPointS(): return Struct(M.SPoint, {"x": Int(), "name": Str()})
 def FPointS(): return Struct(M.FPoint, {"x": Int(), "flag": Bool()})
 def KPointS(): return Struct(M.KPoint, {"x": Int(), "y": Str()})
 def WithCVS(): return Struct(M.WithCV, {"x": Int(), "label": Str()})
+def JobS(): return Struct(M.Job, {"name": Str(), "retries": Opt(Int()), "tags": Opt(ListOf(Str()))})
+def TDOptS(): return Struct(M.TDOpt, {"a": Opt(Int()), "b": Opt(Str())}, kind="typeddict", optional=("a", "b"))
+def ExtOrderS():
+    from vlib.fixtures import mod_a, mod_b
+    item = lambda: Struct(mod_a.Item, {"id": Int(), "tag": Str()}, name="a.Item")  # noqa: E731
+    return Struct(mod_b.ExtOrder, {"item": item(), "items": ListOf(item(), 1), "note": Str()}, name="ExtOrder(b<-a)")
+def TDTreeS(d=2):
+    fields = {"weight": Picked(decimal.Decimal, [decimal.Decimal("1.5"), decimal.Decimal("-2")], name="Decimal")}
+    if d > 0:
+        fields["left"] = Lazy(lambda: TDTreeS(d - 1))
+    return Struct(M.TDTree, fields, kind="typeddict", optional=tuple(fields), name="TDTree")
+def PermS(): return Picked(M.Perm, [M.Perm.R, M.Perm.R | M.Perm.X, M.Perm(0), M.Perm.R | M.Perm.W | M.Perm.X], name="Perm(Flag)")
+def ModeS(): return Picked(M.Mode, [M.Mode.READ, M.Mode.READ | M.Mode.WRITE, M.Mode(0)], name="Mode(IntFlag)")
+def SlugS(): return Picked(M.Slug, [M.Slug("abc"), M.Slug(""), M.Slug("1")], name="Slug(str)")
 def NFHolderS(): return Struct(M.NFHolder, {"when": Opt(DateS(), "none_first"), "who": Opt(FPointS(), "Union_none_first")})
 def LineS(): return Struct(M.Line, {"a": PointS(), "b": PointS(), "label": Str()})
 def BagS(): return Struct(M.Bag, {"items": ListOf(Int()), "names": DictOf(Str(), Int()), "maybe": Opt(Int())})
@@ -161,14 +176,14 @@ def _opt_of(inner, T, name, live):
 # ------------------------------------------------------------------------------------------- catalogue
 def scalars_transparent():
     return [Int(), Bool(), Float(), Str(), Bytes(), ByteArrayS(), NoneS(), EnumS(M.Color), EnumS(M.Mood), EnumS(M.Level), EnumS(M.Tag),
-            EnumS(M.Swap), EnumS(M.Kind), Lit(1, 2, "a"), Lit("x", "y"), Lit(True, 3), Lit("2", 2, "null", None)]
+            EnumS(M.Swap), EnumS(M.Kind), EnumS(M.Gain), Lit(1, 2, "a"), Lit("x", "y"), Lit(True, 3), Lit("2", 2, "null", None)]
 
 
 def scalars_realised():
     # root-level scalars carry the adversarial values too (negative durations, non-UTC offsets); inside
     # composites the "safe" lists are used so that a known leaf-level finding cannot mask a composite one
     return [DecimalS(), FractionS(), UUIDS_(), PathS(), PurePathS(), DateS(), DateTimeS(), TimeS(safe=False),
-            TimeDeltaS(safe=False), PatternS()]
+            TimeDeltaS(safe=False), PatternS(), PermS(), ModeS(), SlugS()]
 
 
 def containers1():
@@ -190,7 +205,7 @@ def containers1():
 
 def structured():
     return [PointS(), SPointS(), FPointS(), KPointS(), LineS(), BagS(), MixedS(), NTS_(), NTSS(), TDS(), TDNS(),
-            TDChildS(), TDReqS(), PlainS(), SlottedS(), SubNTS(), PlainNTS(), WithCVS()]
+            TDChildS(), TDReqS(), PlainS(), SlottedS(), SubNTS(), PlainNTS(), WithCVS(), JobS(), TDOptS(), ExtOrderS()]
 
 
 def wrappers():
@@ -204,7 +219,7 @@ def wrappers():
 
 def recursive(d=2):
     return [TreeS(d), ChainS(d), PNodeS(d), DNodeS(d), TNodeS(d), PingS(d), DeptS(d), NTreeS(d), TDNodeS(d), HostS(d), ItemS(d),
-            CycS(d), IndS(d)]
+            CycS(d), IndS(d), TDTreeS(d)]
 
 
 def depth2():
@@ -216,6 +231,7 @@ def depth2():
         DictOf(EnumS(M.Mood), Int()), FixedTuple(DateS(), TimeDeltaS(), Int()), ListOf(TimeDeltaS()),
         UnionS(Int(-2, 2), Str(picks=["", "a", "1"])), UnionS(PointS(), Int(-2, 2)), ListOf(UnionS(Int(-2, 2), Str(picks=["", "a", "1"]))),
         DictOf(Str(picks=["a", "b"]), UnionS(Int(-2, 2), PointS())),
+        UnionS(Str(picks=["", "a", "None"]), NoneS(), Int(-2, 2)),
         # None declared first (X == Optional[X] as cache keys: the inner types below occur in no other optional)
         Opt(DateS(), "none_first"), Opt(SPointS(), "none_first"), Opt(DecimalS(), "Union_none_first"),
         ListOf(Opt(EnumS(M.Level), "none_first")), NFHolderS(),
@@ -241,7 +257,7 @@ CORE = {
     "Tree", "Chain", "DNode", "Ping", "Dept", "NTree", "TDNode", "Item", "Cyc", "Ind",
     "list[list[int]]", "dict[str,list[int]]", "list[Point]", "dict[str,Point]", "list[Optional[int]]",
     "tuple[Point,list[int]]", "Optional[Point]", "list[date]", "list[TD]", "list[tuple[int,str]]",
-    "Union[int,str]", "Union[Point,int]", "list[Union[int,str]]", "PlainNT", "None|date", "None|SPoint", "NFHolder", "Swap", "Kind", "bytearray", "MutableSet[int]", "str|None", "bool|None", "WithCV", "Literal['2', 2, 'null', None]",
+    "Union[int,str]", "Union[Point,int]", "list[Union[int,str]]", "PlainNT", "None|date", "None|SPoint", "NFHolder", "Swap", "Kind", "bytearray", "MutableSet[int]", "str|None", "bool|None", "WithCV", "Gain", "Perm(Flag)", "Mode(IntFlag)", "Slug(str)", "Job", "TDOpt", "ExtOrder(b<-a)", "TDTree", "Union[str,None,int]", "Literal['2', 2, 'null', None]",
 }
 
 
